@@ -36,3 +36,4 @@ pub assume_specification<T, P: FnOnce(&T) -> bool> [ Option::<T>::filter ](o: Op
         o.is_some() && predicate.ensures((&o.unwrap(),), true) ==> r == o,
         o.is_some() && predicate.ensures((&o.unwrap(),), false) ==> r.is_none(),
 ;
+
